@@ -192,7 +192,9 @@ RandPaths == LET A == RandomSubset(Num, GoodSubs) B == RandomSubset(3, GoodSubs)
 
 \* curves: the harness realises shape s with total length = s.L units (unit = true length / L)
 CurveShapes == {<<"circle", TRUE>>, <<"bigarc", FALSE>>, <<"quarter", FALSE>>, <<"quad", FALSE>>, <<"cubic", FALSE>>,
-                <<"cubic-s", FALSE>>, <<"ellipse", TRUE>>, <<"mixed", TRUE>>, <<"mixed-open", FALSE>>}
+                <<"cubic-s", FALSE>>, <<"ellipse", TRUE>>, <<"mixed", TRUE>>, <<"mixed-open", FALSE>>,
+                \* cubics with two inflection points strictly inside (0,1): (0,0)(9,6)(1,6)(10,0) etc., see props/c05/geom.go
+                <<"cubic-2i-a", FALSE>>, <<"cubic-2i-b", FALSE>>, <<"cubic-2i-c", FALSE>>}
 CurvePaths == {<< Sub(c[1], <<>>, c[2], n) >> : c \in CurveShapes, n \in {7, 12, 24}}
               \cup {<< Sub("quad", <<>>, FALSE, 6), Sub("circle", <<>>, TRUE, 12) >>}
 
@@ -206,7 +208,14 @@ PatChoice == IF Num > 0 /\ Fam = "cat" THEN Pats \cup RandomSubset(Num, [1..(Max
 
 \* tolerance of the comparison, in 1/Q units: polylines exact; curves: see notes/C05.md (calibrated)
 QOf == IF Fam = "curve" THEN 100 ELSE 1
-TolOf == IF Fam = "curve" THEN 10 ELSE 0
+\* curves: 0.1 unit; cubics with two inflection points: 1.25 % of the curve length if that is more (calibrated: the library's
+\* inverse arc length is off by up to 0.88 % of the length on them, 0.1 % on other cubics; the statement allows 1 % of the
+\* curve length, see notes/C05.md)
+TwoInflShapes == {"cubic-2i-a", "cubic-2i-b", "cubic-2i-c"}
+SubTol(s) == IF s.shape \in TwoInflShapes THEN MaxI(10, (5 * s.L + 3) \div 4) ELSE 10
+RECURSIVE MaxTol(_, _)
+MaxTol(p, j) == IF j = 0 THEN 0 ELSE MaxI(SubTol(p[j]), MaxTol(p, j - 1))
+TolOf == IF Fam = "curve" THEN MaxTol(path, Len(path)) ELSE 0
 
 Init == /\ path \in PathChoice /\ d \in PatChoice /\ off \in (0 - OffNeg)..OffHi
         /\ k = 1 /\ pos = -1 /\ i = 0 /\ rem = 0 /\ cur = <<>> /\ out = <<>> /\ done = FALSE
